@@ -89,6 +89,13 @@ pub fn alphabet(n: usize, c: &AlphaCfg) -> Vec<Dev> {
             true
         }));
         if c.kinds {
+            devs.push(dev(format!("v{}.ident=r#try", i), &[&format!("ident{}", i)], move |s| {
+                if i >= s.variants.len() || s.variants.iter().any(|v| v.ident == "r#try") {
+                    return false;
+                }
+                s.variants[i].ident = "r#try".into();
+                true
+            }));
             for (kn, kd) in data_kinds() {
                 devs.push(dev(format!("v{}.kind={}", i, kn), &[&format!("kind{}", i)], move |s| {
                     if i >= s.variants.len() {
@@ -330,6 +337,7 @@ pub fn ident_forms(spec: &EnumSpec) -> Vec<String> {
             }
         };
         push(v.ident.clone());
+        push(crate::spec::unraw(&v.ident).to_string());
         for st in [
             refsem::Style::Snake,
             refsem::Style::Kebab,
